@@ -780,10 +780,13 @@ class Table(JupyterMixin):
                     and not (show_header and header_row)
                 ):
                     if leading:
-                        yield _Segment(
-                            _box.get_row(widths, "mid", edge=show_edge) * leading,
-                            border_style,
+                        blank_row = _Segment(
+                            _box.get_row(widths, "mid", edge=show_edge), border_style
                         )
+                        for _ in range(leading - 1):
+                            yield blank_row
+                            yield new_line
+                        yield blank_row
                     else:
                         yield _Segment(
                             _box.get_row(widths, "row", edge=show_edge), border_style
